@@ -85,6 +85,9 @@ class JobModel:
                 d["aux"] = float("nan") if u < 0.3 else u
             if "int" in ex:
                 d["cnt"] = int(u * 100)
+        lk = self.s.get("late_key")
+        if lk and level >= lk:
+            d["late_val"] = round(hfloat(self.table_seed, "late", hk, level), 6)
         if self.s.get("shuffle_keys"):
             keys = sorted(d, key=lambda k: hfloat(self.table_seed, "korder", hk, level, k))
             d = {k: d[k] for k in keys}
